@@ -230,10 +230,29 @@ def check_graph_ops(case):
     L = libif.lib()
     n, gid0 = case["n"], case["gid"]
     fails = []
+    how = case.get("construct", "decompress")
     try:
-        g = L.Graph.decompress(n, gid0)
+        if how == "decompress":
+            g = L.Graph.decompress(n, gid0)
+        else:
+            # the same graph handed over as an adjacency matrix in different dtypes / memory layouts (Graph() adopts int8 arrays as is)
+            a = matrix_from_masks(n, lc.adj_from_gid(n, gid0))
+            if how == "int8-C":
+                g = L.Graph(np.array(a, dtype=np.int8))
+            elif how == "int8-F":
+                g = L.Graph(np.asfortranarray(np.array(a, dtype=np.int8)))
+            elif how == "int8-T":
+                g = L.Graph(np.ascontiguousarray(np.array(a, dtype=np.int8).T).T)
+            elif how == "int8-view":
+                big = np.zeros((n + 2, n + 3), dtype=np.int8)
+                big[1:n + 1, 2:n + 2] = a
+                g = L.Graph(big[1:n + 1, 2:n + 2])
+            elif how == "int64":
+                g = L.Graph(np.array(a, dtype=np.int64))
+            else:
+                g = L.Graph(np.array(a, dtype=bool))
     except Exception as e:  # noqa: BLE001
-        return [("graph-ops/raised:decompress", f"n={n}: decompress({gid0}) raised {type(e).__name__}({e})", {})]
+        return [(f"graph-ops/raised:construct:{how}", f"n={n}: constructing graph {gid0} via {how} raised {type(e).__name__}({e})", {})]
     adj = lc.adj_from_gid(n, gid0)
 
     def model_edge(i, j, val):
@@ -316,14 +335,15 @@ def graph_ops_strategy():
                        st.tuples(st.just("swap"), v, v), st.tuples(st.just("clear")), st.tuples(st.just("path"), st.lists(v, min_size=0, max_size=4)),
                        st.tuples(st.just("isolate"), v), st.tuples(st.just("copy")), st.tuples(st.just("compress")))
         ops = [list(o) for o in draw(st.lists(op, min_size=1, max_size=10))]
-        return {"n": n, "gid": gid, "ops": ops}
+        how = draw(st.sampled_from(["decompress", "decompress", "int8-C", "int8-F", "int8-T", "int8-view", "int64", "bool"]))
+        return {"n": n, "gid": gid, "ops": ops, "construct": how}
     return cases()
 
 
 def classify_ops(case):
     kinds = {o[0] for o in case["ops"]}
     nt = ("ops", case["n"], case["gid"], repr(case["ops"])) if ("lc" in kinds and len(case["ops"]) >= 2) else None
-    return nt, {"graph_op_sequences": f"n={case['n']}"}
+    return nt, {"graph_op_sequences": f"n={case['n']}", "graph_construction": case.get("construct", "decompress")}
 
 
 def shard_graph_ops(arg):
